@@ -228,3 +228,58 @@ func DumpString(d map[string]Node) string {
 	}
 	return s
 }
+
+// ExactDump is the dump used by C10: everything a client can observe, exactly -
+// handle bytes, every attribute incl. times and nlink, listing order and
+// cookies of READDIR and READDIRPLUS, every byte (within the probe).
+func ExactDump(srv *nfs.Nfs, p *Probe) string {
+	var b []byte
+	w := func(f string, a ...interface{}) { b = append(b, fmt.Sprintf(f, a...)...) }
+	var walk func(path string, fh []byte, depth int)
+	walk = func(path string, fh []byte, depth int) {
+		g := Exec(srv, Op{K: "GETATTR"}, fh, nil)
+		w("%s fh=%x st=%d", path, fh, g.Status)
+		if !g.OK() || depth > 32 {
+			w("\n")
+			return
+		}
+		a := g.Attr
+		w(" type=%d size=%d id=%d nlink=%d atime=%v mtime=%v", a.Type, a.Size, a.Fileid, a.Nlink, a.Atime, a.Mtime)
+		switch a.Type {
+		case 1:
+			w(" data=%s\n", p.Digest(a.Size, func(off, cnt uint64) []byte { return Exec(srv, Op{K: "READ", Off: off, Cnt: cnt}, fh, nil).Data }))
+		case 5:
+			w(" target=%q\n", Exec(srv, Op{K: "READLINK"}, fh, nil).Target)
+		case 2:
+			w("\n")
+			rd := Exec(srv, Op{K: "READDIR", Cnt: 1 << 30}, fh, nil)
+			w("  readdir st=%d eof=%v:", rd.Status, rd.Eof)
+			for _, e := range rd.Ents {
+				w(" %s/%d/%d", e.Name, e.Fileid, e.Cookie)
+			}
+			w("\n")
+			ents, err := ListDir(srv, fh)
+			w("  readdirplus err=%v:", err)
+			for _, e := range ents {
+				w(" %s/%d/%d/%x", e.Name, e.Fileid, e.Cookie, e.FH)
+				if e.Attr != nil {
+					w("/%d/%d/%v/%v", e.Attr.Type, e.Attr.Size, e.Attr.Atime, e.Attr.Mtime)
+				}
+			}
+			w("\n")
+			for _, e := range ents {
+				if e.Name == "." || e.Name == ".." {
+					continue
+				}
+				l := Exec(srv, Op{K: "LOOKUP", N: e.Name}, fh, nil)
+				if !l.OK() {
+					w("%s/%s LOOKUP st=%d\n", path, e.Name, l.Status)
+					continue
+				}
+				walk(path+"/"+e.Name, l.FH, depth+1)
+			}
+		}
+	}
+	walk("", RootFH(), 0)
+	return string(b)
+}
